@@ -254,6 +254,8 @@ impl Iterator for SimIter<'_> {
             3 => (if rem == 0 { 0 } else { (self.hint_raw as usize) % rem }, None),
             4 => (rem, Some(rem.saturating_add((self.hint_raw % 100) as usize))),
             // legal: an upper bound may be arbitrarily loose
+            // hostile (contract-breaking): an upper bound below the true count
+            8 => (0, Some((self.hint_raw as usize) % (rem + 1))),
             6 => (0, Some(usize::MAX)),
             7 => (rem, Some(usize::MAX)),
             _ => (self.hint_raw as usize, None),
